@@ -618,9 +618,21 @@ def check_every(ctx):
     t = Table(prog, sec)
     W = ctx.where(sec.module, sec.node)
     bad = None
+    joined = None
     n = 0
     for p in t.paths:
         loops = [c for c in p.conds if c.kind == 'loop']
+        # one text per *section* (the entries of a section joined before
+        # they are handed on): a section without defaults then contributes
+        # an empty member, which the comma-joined JSON document cannot hold
+        for e in p.events:
+            if e.kind != 'yield' or not loops:
+                continue
+            v = t.expand(e.node)
+            if isinstance(v, ast.Call) and method_call(v, 'join') and any(
+                    isinstance(x, ast.Call) and prog.callee_of(sec, x) in (
+                        fmt, fj) for x in ast.walk(v)):
+                joined = joined or (p, e)
         if len(loops) < 2 or not all(c.pol for c in loops):
             continue
         fmtc = None
@@ -657,6 +669,15 @@ def check_every(ctx):
                 v.args[0].id.startswith('SYM_e')
         if not ok and bad is None:
             bad = (p, fmtc)
+    if joined is not None:
+        ctx.ob('C17.EVERY', False, '%s:%d' % (W.split(':')[0],
+                                              joined[1].line), sec.qual,
+               'yield ' + U(t.expand(joined[1].node))[:60],
+               'the section formatter hands on one text per section (its '
+               'entries joined) instead of one per default: a section '
+               'without defaults contributes an empty text, and the sample '
+               'writer\'s comma-joined JSON document gets an empty member')
+        return
     if bad is None and n < 2:
         raise AnalysisError(
             'the section formatter %s has no path on which a loop over the '
